@@ -14,7 +14,8 @@ open WW WW.Vault
 
 /-- Every successful operation — deposit, withdrawal, fee collection, fee / toggle change, donation,
     flash loan with an arbitrary callback tree, flash loan through the vault router with an arbitrary
-    payload, plain transfers to the router, refused router calls — preserves the vault invariant and
+    payload, plain transfers to the router, refused router calls, refused foreign entry points
+    (direct `Withdraw {}`, hooks from other tokens, `Callback` from outside) — preserves the vault invariant and
     does not lower the assets backing one share. -/
 theorem price_step {s s' : St} (op : Op) (hI : Inv s) (h : step s op = some s') :
     Inv s' ∧ (0 < s.sup → backing s * s'.sup ≤ backing s' * s.sup) := by
@@ -91,6 +92,7 @@ theorem price_step {s s' : St} (op : Op) (hI : Inv s) (h : step s op = some s') 
       exact ⟨hI', fun _ => by rw [hb, hs]⟩
   | nextLoanBy who amount payload => exact absurd h (by simp [step])
   | completeLoanBy who initiator amount => exact absurd h (by simp [step])
+  | foreign k who a b => exact absurd h (by simp [step])
 
 /-- The invariant holds in every reachable state (failed operations leave the state untouched). -/
 theorem inv_reach {s : St} (hI : Inv s) (ops : List Op) : Inv (reach s ops) := by
@@ -157,6 +159,7 @@ theorem supply_stays_positive {s s' : St} (op : Op) (hI : Inv s) (h : step s op 
         · exact Or.inl (move_inv hI (by omega) (by omega) h).2.2.2.1
       | nextLoanBy who amount payload => exact absurd h (by simp [step])
       | completeLoanBy who initiator amount => exact absurd h (by simp [step])
+      | foreign k who a b => exact absurd h (by simp [step])
     have := min_liq_pos
     rcases hkeep with hk | hk <;> omega
   · have := hI'.lpSum
